@@ -567,8 +567,9 @@ class NDNApp:
         lifetime = deadline - utils.timestamp()
         if lifetime <= 0:
             # This happens if the application sends an Interest, does some calculation, and then fetches the result.
-            # The Interest should be satisfied now. Thus, it should not be considered as an error.
-            lifetime = 100
+            # The Interest should be satisfied now. Thus, it should not be considered as an error:
+            # a result that is already there is returned, but the lifetime is not extended.
+            lifetime = 0
         try:
             data_name, content, pkt_context = await aio.wait_for(future, timeout=lifetime/1000.0)
         except TimeoutError:
